@@ -5,56 +5,43 @@ from pathlib import Path
 PROPS_VO = "Props/C16.vo"
 EXTRA_VO = ["Model/C16Oracle.vo"]      # the oracle is extracted but is not a dependency of Props/C16.vo
 PROFILES = ["release", "debug"]     # debug = overflow checks on: usize under/overflow panics instead of wrapping
-RULE = ("harness c16: straight-line CKKS programs generated while being executed on FFT64Ref and NTT120Ref "
-        "(n = 128/256, base2k 19/16 and 52/45), 6 registers of unequal limb counts, operands of unequal "
-        "log_delta/log_budget, smaller destinations, in-place forms, rotations with/without keys, near-limit constants; "
-        "one record = one program, one output row (status, log_delta, log_budget, limbs) per step; "
-        "distinct = distinct (params, program) lines.  Value stream (extra phase): the same kind of programs with a shadow "
-        "complex evaluation, max slot error * 2^log_delta per step compared with the envelope of Model/C16Oracle.v; "
-        "encode->decode identity for the f64 encoder for 2..4096 slots")
+RULE = ("harness c16: straight-line CKKS programs generated *while being executed* through the public traits on Module<FFT64Ref> "
+        "and Module<NTT120Ref> (n = 128/256; base2k 19/16 resp. 52/45), 6 registers of unequal limb counts, fresh encryptions "
+        "of unequal (log_delta, log_budget), all 60 op codes (add/sub ct, vec znx/rnx, const znx/rnx; neg; mul/square/mul-add/mul-sub "
+        "with ct, vectors, constants; x/: 2^k; rotate with present/missing keys; conjugate; rescale; align; compaction, reallocation, "
+        "set_meta_checked; decrypt) in into/in-place forms, destinations smaller than the natural result, near-limit constants, "
+        "wild scalars; one probe program per known-finding class and usize-overflow probes; both build profiles. "
+        "One record = one program, one output row (status, log_delta, log_budget, limbs) per step, compared bit for bit with run_c16; "
+        "distinct = distinct (params, program) lines. Extra phase (value stream): same kind of programs with a shadow complex f64 "
+        "evaluation; floor(max slot error * 2^log_delta) per step against the explicit worst-case envelope of Model/C16Oracle.v; "
+        "encode->decode identity of the f64 encoder for 2..4096 slots (<= 2 log2(n) + 4 ulps)")
 ASSUMPTIONS = [
-    "metadata fields and caller scalars below 2^63 (theorem hypothesis `wf`); the overflow probes of the harness show what happens above",
-    "admissible calls: ciphertexts with at least one limb; ckks_encrypt_sk with 1 <= noise k and ceil(k/base2k) <= limbs of the destination "
-    "(poulpy-core asserts it); plaintext/ciphertext base2k equal in products; to_znx_at_k with k >= 1",
-    "value tracking is checked (measured against an explicit worst-case envelope), not proved; the f64 rounding of encode/decode is outside every theorem",
-    "f128 plaintexts and the AVX backends are not exercised (f128 is a dev-dependency of poulpy-ckks; CKKSImpl for the AVX backends needs poulpy-ckks/enable-avx, "
-    "which the shared harness manifest does not enable)",
-    "add_many / mul_many / dot_product composites are not modelled",
+    "theorem hypotheses: base2k >= 1; operands satisfy `good` (log_delta + log_budget <= limbs * base2k < 2^62); caller scalars below 2^63 "
+    "(wf_op); above that the usize additions overflow: C16_no_underflow_refuted_huge_scalar, harness probes",
+    "admissible calls (asserted by the layers below, not defects): ckks_encrypt_sk with 1 <= noise k and ceil(k/base2k) <= limbs of the "
+    "destination; constants converted by to_znx/to_znx_at_k need k >= 1 (precision (0,0) has no limb); ciphertexts with at least one limb",
+    "value tracking is measured against an explicit worst-case envelope (derivation in Model/C16Oracle.v), not proved; the f64 rounding "
+    "of encode/decode is outside every theorem; plaintext values are the quantised ones (what the plaintext really encodes)",
+    "representable magnitude: |coefficient| < 2^(log_budget-1) (1 - 2^-(base2k-2)); balanced base-2^b digits decode the top sliver "
+    "[2^(lb-1)(1-2^-b), 2^(lb-1)) as negative values (observed; not counted as a finding)",
+    "not exercised: f128 plaintexts (f128 is only a dev-dependency of poulpy-ckks), AVX backends (CKKSImpl for them needs "
+    "poulpy-ckks/enable-avx, which the shared harness manifest does not turn on), add_many / mul_many / dot_product composites, "
+    "user-built CKKSPlaintextCstZnx (only to_znx / to_znx_at_k outputs), operands that violate the invariant beyond the one-call quarantine",
 ]
 TRUSTED = ["shadow complex evaluation and decrypt/decode path of harness/src/bin/c16.rs (f64)"]
 
-HUGE = 1 << 63
-UNARY_INTO_POLLUTERS = {14, 16, 18, 20, 22, 24, 26, 28, 30, 54, 56, 58, 60}
-PRODUCT_OPS = {32, 33, 34, 35, 36, 37, 38, 39, 44, 45, 46, 49, 50, 51}
-CONST_ADD_OPS = set(range(22, 30))
+PRODUCT_CT = {32: ("a", "b"), 33: ("d", "a"), 34: ("a",), 35: ("d",), 36: ("a",), 37: ("d",), 38: ("a",), 39: ("d",),
+              44: ("a", "b"), 45: ("a",), 46: ("a",), 49: ("a", "b"), 50: ("a",), 51: ("a",)}
 
 
 def _hex(x):
     return -int(x[1:], 16) if x.startswith("-") else int(x, 16)
 
 
-def _uses(op, d, a, b):
-    """registers read by the step (the destination is read by the in-place forms)"""
-    into1 = {14, 16, 18, 20, 22, 24, 26, 28, 30, 34, 36, 38, 40, 42, 54, 56, 58, 60, 62, 67}
-    acc1 = {45, 46, 47, 48, 50, 51, 52, 53}
-    if op in (1, 2):
-        return set()
-    if op in (10, 12, 32):
-        return {a, b}
-    if op in (44, 49):
-        return {d, a, b}
-    if op in (11, 13, 33) or op in acc1:
-        return {d, a}
-    if op in into1:
-        return {a}
-    if op == 64:
-        return {d, b}
-    return {d}
-
-
 def classify(record):
-    """key of the known-finding class that explains *every* offending row of the record, else None.
-    offending row = panic (99) or Ok with log_delta + log_budget > limbs * base2k."""
+    """The one remaining known class: a product (ct x ct, square, ct x vector plaintext, and their mul-add / mul-sub
+    forms) panics when a ciphertext operand has more limbs than ceil(effective_k / base2k).  The key is returned only
+    when the panic is the record's single offending row and an operand of that step really is not compact."""
     try:
         code, ps, vs, outs = record.split("#")
         if int(code) not in (16001, 16002) or outs.startswith("PANIC"):
@@ -64,71 +51,33 @@ def classify(record):
         rows = [[_hex(x) for x in r.split()] for r in outs.split(";")]
     except Exception:
         return None
-    tainted = set()       # registers whose metadata is inconsistent (or whose content derives from such a register)
-    keys = []
-    meta = {}             # register -> (log_delta, log_budget) as last reported
+    reg = {}              # register -> (log_delta, log_budget, limbs) as last reported
+    key = None
     for s, r in zip(steps, rows):
         op, d, a, b = s[0], s[1], s[2], s[3]
-        st, ld, lb, size = r[0], r[1], r[2], r[3]
-        used = _uses(op, d, a, b)
-        # ct x ct product of operands with "mixed" metadata (one has the larger log_delta, the other the larger log_budget)
-        if st == 0 and op in (32, 33, 44, 49):
-            x, y = (meta.get(d), meta.get(a)) if op == 33 else (meta.get(a), meta.get(b))
-            if x and y and (x[0] - y[0]) * (x[1] - y[1]) < 0:
-                keys.append("C16:mul_ct.mixed_meta_wrong_scale")
-                tainted.add(d)
-        if st != 99:
-            meta[d] = (ld, lb)
-            if op == 64 and len(r) >= 7:
-                meta[b] = (r[4], r[5])
-        huge = any(x >= HUGE for x in s[4:])
-        exceeds = st != 99 and (ld + lb > size * B or ld >= HUGE or lb >= HUGE)
-        if op == 64 and st == 0 and len(r) >= 7 and r[4] + r[5] > r[6] * B:
-            exceeds = True
+        st = r[0]
         if st == 99:
-            if huge and op in (54, 56, 68):
-                keys.append("C16:usize_overflow.huge_scalar")
-            elif used & tainted:
-                keys.append("C16:error_path.stale_meta")
-            elif op in CONST_ADD_OPS:
-                keys.append("C16:add_const.digits_beyond_dst")
-            elif op in (36, 37, 45, 50) and s[9] != B:
-                keys.append("C16:mul_pt.base2k_mismatch_panics")
-            elif op in PRODUCT_OPS:
-                keys.append("C16:mul.noncompact_operand_panics")
-            else:
+            names = PRODUCT_CT.get(op)
+            if not names:
                 return None
+            opnd = {"d": d, "a": a, "b": b}
+            noncompact = False
+            for nm in names:
+                m = reg.get(opnd[nm])
+                if m and m[0] + m[1] > 0 and -(-(m[0] + m[1]) // B) != m[2]:
+                    noncompact = True
+            if not noncompact:
+                return None
+            key = "C16:mul.noncompact_operand_panics"
             break
-        if st == 0 and huge and op in (54, 56, 68):
-            keys.append("C16:usize_overflow.huge_scalar")
-            tainted.add(d)
-            continue
-        if st != 0:
-            if exceeds:
-                # a failed call left the destination with metadata it cannot hold
-                if d in tainted or op in UNARY_INTO_POLLUTERS or op == 2 or (used & tainted):
-                    tainted.add(d)
-                else:
-                    return None
-            continue
-        if exceeds:
-            if used & tainted:
-                keys.append("C16:error_path.stale_meta")
-            elif op == 62:
-                keys.append("C16:rescale_into.smaller_dst")
-            else:
+        if r[1] + r[2] > r[3] * B or r[1] < 0 or r[2] < 0:
+            return None                       # metadata that the destination cannot hold: never explained
+        reg[d] = (r[1], r[2], r[3])
+        if op == 64 and len(r) >= 7:
+            if r[4] + r[5] > r[6] * B:
                 return None
-            tainted.add(d)
-        else:
-            if used & tainted and op not in (1, 2):
-                tainted.add(d)      # value derives from garbage; metadata happens to fit
-            else:
-                tainted.discard(d)
-        if op == 64 and len(r) >= 7 and r[4] + r[5] > r[6] * B:
-            tainted.add(b)
-    if int(code) == 16002 and not keys and tainted:
-        keys.append("C16:error_path.stale_meta")
-    return keys[0] if keys else None
+            reg[b] = (r[4], r[5], r[6])
+    return key
 
 
 def extra(ctx, ofails, notes):
